@@ -390,3 +390,6 @@ def run(ctx):
     _b.check_predicates(ctx, 'C19.RP', 'C19')
     from .. import boundaries as _b
     _b.check_updates(ctx, 'C19.RU', 'C19')
+    from .. import tstate
+    r11 = ctx.rule('C19.R11', 'TSTATE', 'a received RST_STREAM lets the stream be forgotten from every state: no scheduled-only reset survives it (= C05.R8)')
+    tstate.recv_reset_rows(r11, ctx.facts)
